@@ -727,6 +727,20 @@ def main(tier, seed, replay=None):
                 camp.case(sc, nontrivial=True, classes=["directed"] + list(classes_))
                 for b, d in fails_:
                     camp.fail(b, sc, d)
+    # directed: Map states whose MaxConcurrency is no non-negative integer, stored unvalidated
+    for mc_ in (-1, -2, 1.5, "2", True, None, [1]):
+        for typ in ("STANDARD", "EXPRESS"):
+            d_ = {"StartAt": "M", "States": {"M": {"Type": "Map", "ItemsPath": "$.items", "MaxConcurrency": mc_, "ResultPath": "$.m", "End": True,
+                                                   "ItemProcessor": {"StartAt": "I", "States": {"I": {"Type": "Task", "Resource": FN, "End": True}}}}}}
+            sc = {"family": "C", "kind": "definition", "value": d_, "labels": ["directed:max_concurrency:%r" % (mc_,)], "schedule": [], "type": typ}
+            try:
+                fails_, classes_, _nt = run_scenario(sc)
+            except Exception as e:
+                camp.harness_error("directed poison definition crashed the harness: %r" % (e,))
+                continue
+            camp.case(sc, nontrivial=True, classes=["directed"] + list(classes_))
+            for b, d in fails_:
+                camp.fail(b, sc, d)
     from .. import fuzz
     if tier == "thorough":
         run_shards(camp, __name__, "shard", 16, examples=2500)
